@@ -1,5 +1,6 @@
 """Helpers shared by the property modules that use the abstract interpreter."""
 import itertools
+import re
 from fractions import Fraction as Fr
 
 from .absval import (Term, OrderVal, Vec, GA, DF, Row, Opaque, NRows, FStr, FVal, Undecided, Raised, T, same, W, INF,
@@ -57,6 +58,30 @@ def ref_exp_oracle(c, P, hap, fem, par):
     return ref, exp
 
 
+_UNMODELLED = re.compile(r"(?:^|[\[\(\{'\" ,=:])(\?(?:np|pd|scipy|numpy|pandas|mixed:|[a-z_]+\.)[\w.:\[\]()]*)")
+
+
+def _unmodelled_in(w, depth=0):
+    """an Opaque (unmodelled library result) inside a witness: the object itself, or its repr `?np.select` inside a rendered value"""
+    if isinstance(w, Opaque):
+        return repr(w)
+    if isinstance(w, str):
+        m = _UNMODELLED.search(w)
+        return m.group(1) if m else None
+    if depth > 6:
+        return None
+    if isinstance(w, dict):
+        w = list(w.values())
+    if isinstance(w, (list, tuple, set)):
+        for x in w:
+            r = _unmodelled_in(x, depth + 1)
+            if r is not None:
+                return r
+    if isinstance(w, Vec):
+        return _unmodelled_in(list(w.v), depth + 1)
+    return None
+
+
 class Table:
     """collects the cells of one decision-table obligation"""
 
@@ -69,6 +94,12 @@ class Table:
     def cell(self, ok, witness):
         self.cells += 1
         if not ok:
+            unk = _unmodelled_in(witness)
+            if unk is not None:
+                # the interpreted code produced a value the model has no semantics for: the cell is not decided (never a violation)
+                self.cells -= 1
+                self.undecided.append(f"result holds an unmodelled value {unk}")
+                return
             self.bad.append(witness)
 
     def guard(self, f, label):
